@@ -107,7 +107,7 @@ Inductive op :=
 | OWrite (h : nat) (off : Z) (d : list Z)        (* memcpy (ptr + off, d, |d|) by the caller *)
 | ORead (h : nat) (off n : Z)                    (* the caller reads n bytes at ptr + off *)
 | ORegister (name : Z)                           (* sc_package_register (NULL, SC_LP_DEFAULT, name, ..) *)
-| OUnregister (id : Z)                           (* sc_package_unregister (abort on mismatch switched off) *)
+| OUnregister (id : Z)                           (* sc_package_unregister of a balanced package *)
 | OIsReg (id : Z)                                (* sc_package_is_registered *)
 | OCheck (p : Z)                                 (* sc_memory_check_noerr *)
 | ORc (p k : Z)                                  (* sc_package_rc_count_add *)
@@ -290,7 +290,7 @@ Section Model.
     | OWrite h off d => match hget st h with Some b => (0 <=? off) && (off + len d <=? b_size b) && bytes_ok d | None => false end
     | ORead h off n => match hget st h with Some b => (0 <=? off) && (0 <=? n) && (off + n <=? b_size b) | None => false end
     | ORegister name => name_free st name
-    | OUnregister id => is_reg st id
+    | OUnregister id => is_reg st id && (check_noerr st id =? 0)    (* otherwise sc_package_unregister aborts *)
     | OIsReg id => 0 <=? id
     | OCheck p => -1 <=? p
     | ORc p k => pkg_ok st p
